@@ -167,11 +167,48 @@ def r16_5(repo: Repo) -> RuleResult:
     return rr
 
 
-RULES = [r16_1, r16_2, r16_3, r16_4, r16_5]
+def r16_6(repo: Repo) -> RuleResult:
+    from ..cfg import CFG
+
+    rr = RuleResult("R16.6", "the parse dictionary grows only below the max_dict_size cap and the size counter follows every insertion", floor=1)
+    f = repo.func(MG, "lempel_ziv_based_encode")
+    g = CFG(f.node)
+    d, cap = f.params[1], f.params[3]
+    inserts = [n for n in g.nodes if n.kind == "stmt" and isinstance(n.ast, ast.Assign) and isinstance(n.ast.targets[0], ast.Subscript)
+               and norm(n.ast.targets[0].value) == d and norm(n.ast.value) == "1"]
+    if len(inserts) != 1:
+        raise AnalysisError("R16.6: insertion of a new phrase not found in lempel_ziv_based_encode")
+    ins = inserts[0]
+    guards = [(norm(g.nodes[t].ast), lab) for t, lab in g.guards_of(ins.id)]
+    size_names = [n.ast.targets[0].id for n in g.nodes if n.kind == "stmt" and isinstance(n.ast, ast.Assign) and isinstance(n.ast.targets[0], ast.Name)
+                  and norm(n.ast.value) == "len(%s)" % d]
+    if not size_names:
+        raise AnalysisError("R16.6: size counter initialisation not found")
+    sz = size_names[0]
+    capped = ("%s >= %s" % (sz, cap), "false") in guards or ("%s < %s" % (sz, cap), "true") in guards
+    not_member = any(t.endswith(" in %s" % d) and lab == "false" for t, lab in guards)
+    incs = [n for n in g.nodes if n.kind == "stmt" and isinstance(n.ast, ast.AugAssign) and norm(n.ast.target) == sz]
+    follows = len(incs) == 1 and isinstance(incs[0].ast.op, ast.Add) and norm(incs[0].ast.value) == "1" \
+        and any(t == incs[0].id for t, _ in g.succ[ins.id])
+    problems = []
+    if not capped:
+        problems.append("a new phrase is inserted without the test `%s < %s`: the dictionary can exceed max_dict_size" % (sz, cap))
+    if not not_member:
+        problems.append("insertion is not restricted to phrases absent from the dictionary")
+    if not follows:
+        problems.append("`%s += 1` does not directly follow the insertion: the cap is compared with a stale size" % sz)
+    if problems:
+        rr.bad(f, "phrase insertion", "; ".join(problems), ins.lineno)
+    else:
+        rr.ok(f, "phrase insertion", "dictionary[phrase] = 1 only when absent and %s < %s, followed by %s += 1" % (sz, cap, sz), ins.lineno)
+    return rr
+
+
+RULES = [r16_1, r16_2, r16_3, r16_4, r16_5, r16_6]
 CLAIM = (
     "R16.1 loop-carried dependence: the dictionary handed to the (mutating) parser is created inside each iteration of both "
     "per-string loops; R16.2 CSR pointer consistency of both assembly loops; R16.3 parser called with the same fitted hash and "
     "cap and the dictionary seeded identically in fit_transform and transform; R16.4 transform never mutates the column "
-    "dictionary; R16.5 hashing is modulo max_columns."
+    "dictionary; R16.5 hashing is modulo max_columns; R16.6 the parse dictionary grows only under the cap test and the size counter follows each insertion."
 )
 NOT_DECIDED = "row totals, behaviour at the max_dict_size cap, and the no-collision relabelling statement (values)."
